@@ -79,7 +79,7 @@ SysVerdict(r) ==
     ELSE IF QV(o.initial_condition) # e.initial_condition THEN "SystemInitialConditionValue"
     ELSE IF QV(o.boundary_loss) # e.boundary_loss THEN "SystemBoundaryValue"
     ELSE IF QV(o.observations) # e.observations THEN "SystemObservationValue"
-    ELSE IF QV(o.norm_loss) # e.norm_loss THEN "UnconfiguredTermNotZero"
+    ELSE IF QV(o.norm_loss) # e.norm_loss THEN "SystemNormalisationValue"
     ELSE "ok"
 SysLemmaBad == {k \in DOMAIN Recs : Recs[k].kind = "sysloss" /\ Len(Recs[k].eqs) = 1 /\ Len(Recs[k].nets) = 1
                                      /\ LET r == Recs[k]  s == SysTerms(r)  p == Terms(PlainOf(r)) IN
